@@ -16,6 +16,7 @@ LEVEL = "exploration"
 ASSUMPTIONS = [
     "vocabularies and required-attribute table are hard-coded from the INDI 1.7 DTD (mc.gen.messages)",
     "absent number text is not judged (I-3); min/max/step/format attribute syntax is not judged",
+    "state is #IMPLIED on set*Vector in the DTD: a parsed set message without a state is conformant (the library itself always requires one)",
 ]
 
 ABSENT = object()
@@ -274,13 +275,16 @@ def problems(obj):
         out.append(("kind", "unknown:" + tag))
         return out
     kinds = dict(k.req + k.opt)
+    # the INDI DTD declares state #IMPLIED on set*Vector ("no change if absent"): the library happens to require it,
+    # but a message that carries none is conformant.  If present it must be a property state.
+    implied = {"state"} if tag.startswith("set") else set()
     for name, _ in k.req:
-        if getattr(obj, name, None) is None:
+        if getattr(obj, name, None) is None and name not in implied:
             out.append(("required:" + name, "absent"))
     for name, kd in kinds.items():
         if isinstance(kd, tuple):
             v = getattr(obj, name, None)
-            if v is None and name not in dict(k.req):
+            if v is None and (name not in dict(k.req) or name in implied):
                 continue
             vocab(name, v, kd)
     if isinstance(k.text, tuple):
